@@ -159,7 +159,7 @@ class TGen:
             return None
         lv = r.choice(lvs)
         op = r.choice(["=", "=", "=", "+=", "-=", "*="] + (["/="] if t == FLOAT else []))
-        rhs = self.expr(env, t, 2) if op != "*=" else self.leaf(env, t)
+        rhs = self.expr(env, t, 2) if op != "*=" else (I(r.choice([2, 3, -1])) if t == INT else F(r.choice(["2.0", "0.5", "1.5"])))
         if op == "/=":
             rhs = F(r.choice(["2.0", "4.0"]))
         return ES(A(lv, rhs, op))
@@ -239,19 +239,30 @@ class TGen:
         for t, n in params:
             env.vars[n] = t
         body = []
-        if recursive:
-            # bounded recursion on the first (int) parameter
-            p0 = params[0][1]
-            base = self.expr(env, ret, 1, pure=True)
-            body.append(If(B("<=", V(p0), I(0)), Block([Ret(base)])))
-            rec = Call(name, [B("-", V(p0), I(1))] + [self.expr(env, t, 1, pure=True) for t, _ in params[1:]])
-            x = self.fresh()
-            env.vars[x] = ret
-            body.append(Decl(ret, x, rec))
+        stmts = []
         for _ in range(self.rng.choice([1, 2, 3, 4])):
             s = self.stmt(env, self.max_depth, False)
             if s is not None:
-                body.extend(s if isinstance(s, list) else [s])
+                stmts.extend(s if isinstance(s, list) else [s])
+        if recursive:
+            # bounded recursion on the first (int) parameter; the recursive call sits between statements that
+            # declare locals before it and read them (and the parameters) after it
+            p0 = params[0][1]
+            guard = If(B("<=", V(p0), I(0)), Block([Ret(self.expr(Env(genv), ret, 0, pure=True))]))
+            cut = self.rng.randrange(len(stmts) + 1)
+            before = [x for x in stmts[:cut]]
+            rec = Call(name, [B("-", V(p0), I(1))] + [self.expr(env, t, 1, pure=True) for t, _ in params[1:]])
+            x = self.fresh()
+            after_env_decl = Decl(ret, x, rec)
+            env.vars[x] = ret
+            body = [guard] + before + [after_env_decl] + stmts[cut:]
+            # make sure something computed before the call is read after it
+            pre = [n for n, ty in env.all().items() if ty in (INT, FLOAT) and n != x]
+            if pre:
+                y = self.rng.choice(pre)
+                body.append(ES(A(V(x), canon_bin("+", V(x), V(y)) if env.all()[y] == ret or ret == FLOAT else V(x))))
+        else:
+            body = stmts
         body.append(Ret(self.expr(env, ret, 2)))
         return Func(name, [Arg(t, n) for t, n in params], ret, Block(body), export=export)
 
